@@ -468,10 +468,12 @@ def sec_process_history(rep):
         bad = []
         if not isinstance(ref, str) or len(ref) != 64:
             bad.append(("alone", ref))
+        cmd = None
         for order, got in seqs:
             if got.get(i) != ref:
                 bad.append((f"in the sequence {order} (after the runs {list(order[:order.index(i)])})", got.get(i)))
-        rep.add(ob_eval(f"C14/process-history/{label}: same operators alone in a fresh interpreter and inside every sequence", not bad, kind="invariant", detail=f"digest alone {str(ref)[:16]}; deviations {bad[:2]}", inputs={} if not bad else {"run": label, "theory overrides": str(th), "observables": str(ob["observables"]), "differs": str(bad[:3])}, replay={"confirmed": True, "python": "python -m contracts.history_battery <indices in that order>  vs  python -m contracts.history_battery <index>"}))
+                cmd = cmd or f"cd /verif && NUMBA_DISABLE_JIT=1 .venv/bin/python -m contracts.history_battery {' '.join(str(j) for j in order[:order.index(i) + 1])}   # line '{i} <digest>' differs from:   .venv/bin/python -m contracts.history_battery {i}"
+        rep.add(ob_eval(f"C14/process-history/{label}: same operators alone in a fresh interpreter and inside every sequence", not bad, kind="invariant", detail=f"digest alone {str(ref)[:16]}; deviations {bad[:2]}", inputs={} if not bad else {"run": label, "theory overrides": str(th), "observables": str(ob["observables"]), "differs": str(bad[:3])}, replay={"confirmed": True, "python": cmd or "python -m contracts.history_battery <indices in that order>  vs  python -m contracts.history_battery <index>"}))
 
 
         ok = hb.SPLIT.get(i) == "ok"
